@@ -364,7 +364,8 @@ def binop_atomic(vm, s, opname, a, b):
         r = C.len_compare(_FLIP[opname], b, a)
         if r is not None:
             return sym_bool(r)
-    if ta is C.LenSym and tb is C.LenSym and opname in _CMP:
+    if ta is C.LenSym and tb is C.LenSym and opname in _CMP and len(a.guards[1]) + len(b.guards[1]) <= 16:
+        # (long guard lists: the quadratic Boolean count comparison costs more than the arithmetic term it avoids)
         return sym_bool(C.count_cmp(opname, a.guards, b.guards))
     if ta is C.LenSym:
         a = Sym("int", a.e)
